@@ -461,6 +461,103 @@ func vC35RunLedger(r *verifkit.Run, idx, writes, queriesPerWrite int, base strin
 }
 
 // TestVerif_C35: local topology order is a strictly increasing unique cursor.
+// vC35RunSparse: one more ledger whose positions increase strictly but not by one (the statement asks for strictly
+// increasing positions, not consecutive ones): listings from random cursors return the first `count` stored
+// snapshots at or after the cursor, in order, each with its own position and hash.
+func vC35RunSparse(r *verifkit.Run, writes int, base string) error {
+	rng := r.Fork("c35-sparse", 0)
+	dir := filepath.Join(base, "sparse")
+	sim, err := verifledger.NewSim(fmt.Sprintf("c35-%d-sparse", r.Seed), 7, 1700000000+int64(rng.Intn(1000000)), dir)
+	if err != nil {
+		return err
+	}
+	s := &vC35Sim{r: r, idx: 99, rng: rng, sim: sim}
+	defer func() {
+		s.sim.Close()
+		_ = os.RemoveAll(dir)
+	}()
+	s.owner = verifgen.Addr(sim.Net.Label + ":owner")
+	s.assets = []vC35Asset{{common.BitcoinAssetId, common.BitcoinAssetId, "c6d0c728-2624-429b-8e0d-d9d19b6592fa"}}
+	type rec struct {
+		pos  uint64
+		hash crypto.Hash
+	}
+	var stored []rec
+	gs, err := sim.Store.ReadSnapshotsSinceTopology(0, 500)
+	if err != nil {
+		return err
+	}
+	for _, g := range gs {
+		stored = append(stored, rec{g.TopologicalOrder, g.PayloadHash()})
+	}
+	for wi := 0; wi < writes; wi++ {
+		s.sim.Chain = s.sim.Net.NodeIds[rng.Intn(len(s.sim.Net.NodeIds))]
+		ts := s.sim.NextTime(uint64(1 + rng.Intn(3e9)))
+		txs, err := s.admit(ts)
+		if err != nil {
+			return fmt.Errorf("admit: %v", err)
+		}
+		if rng.Intn(3) == 0 { // leave a hole before this snapshot
+			s.sim.Topo += uint64(1 + rng.Intn(40))
+			r.Count("sparse_ledger_holes", 1)
+		}
+		snap, panicked, err := s.sim.Finalize(txs, ts)
+		if err != nil {
+			return fmt.Errorf("sparse finalize (panicked=%v): %v", panicked, err)
+		}
+		stored = append(stored, rec{snap.TopologicalOrder, snap.PayloadHash()})
+		r.Count("sparse_ledger_snapshots_written", 1)
+		for q := 0; q < 3; q++ {
+			hi := stored[len(stored)-1].pos
+			offset := uint64(rng.Int63n(int64(hi + 3)))
+			if rng.Intn(3) == 0 { // a cursor on a stored position, or right after one
+				offset = stored[rng.Intn(len(stored))].pos + uint64(rng.Intn(2))
+			}
+			count := uint64(1 + rng.Intn(40))
+			if rng.Intn(5) == 0 {
+				count = uint64(rng.Intn(501))
+			}
+			res, err := sim.Store.ReadSnapshotsSinceTopology(offset, count)
+			r.Eval()
+			r.Count("sparse_ledger_listings", 1)
+			w := map[string]any{"offset": offset, "count": count, "returned": len(res), "highest_stored_position": hi, "stored_snapshots": len(stored)}
+			if err != nil {
+				r.Violation("C35|ReadSnapshotsSinceTopology|error|sparse-positions", fmt.Sprintf("listing from cursor fails: %v", err), w)
+				return nil
+			}
+			var want []rec
+			for _, x := range stored {
+				if x.pos >= offset && uint64(len(want)) < count {
+					want = append(want, x)
+				}
+			}
+			bad := ""
+			if len(res) != len(want) {
+				bad = fmt.Sprintf("returns %d snapshots, %d stored snapshots lie at or after the cursor (count %d)", len(res), len(want), count)
+			} else {
+				for i := range res {
+					if res[i].TopologicalOrder != want[i].pos || res[i].PayloadHash() != want[i].hash {
+						bad = fmt.Sprintf("item %d is position %d, expected the stored snapshot at position %d", i, res[i].TopologicalOrder, want[i].pos)
+						break
+					}
+				}
+			}
+			if bad != "" {
+				r.Violation("C35|ReadSnapshotsSinceTopology|window|sparse-positions", "listing from cursor "+fmt.Sprint(offset)+" over strictly increasing, non-consecutive positions "+bad, w)
+				return nil
+			}
+			if len(res) > 0 {
+				r.Nontrivial(fmt.Sprintf("sparse|%d|%d|%d", len(stored), offset, count))
+			}
+		}
+		if got, err := sim.Store.ReadSnapshot(snap.PayloadHash()); err != nil || got == nil || got.TopologicalOrder != snap.TopologicalOrder {
+			r.Violation("C35|ReadSnapshot|position|sparse-positions", "lookup by hash does not report the position the snapshot was stored at", map[string]any{"position": snap.TopologicalOrder})
+			return nil
+		}
+	}
+	return nil
+}
+
 func TestVerif_C35(t *testing.T) {
 	r := verifkit.Start(t, "C35", "exploration")
 	r.SetRule("independent ledgers (real BadgerStore, own genesis with 7..11 nodes); each write finalizes one snapshot of 1..3 validated deposit transactions on a random chain through " +
@@ -494,6 +591,9 @@ func TestVerif_C35(t *testing.T) {
 		}(i)
 	}
 	wg.Wait()
+	if err := vC35RunSparse(r, r.N(150, 1500), base); err != nil && firstErr == nil {
+		firstErr = fmt.Errorf("sparse ledger: %v", err)
+	}
 	if firstErr != nil {
 		r.Inconclusive("harness error: " + firstErr.Error())
 	}
